@@ -376,8 +376,9 @@ def hdf5_abs_dest_quirk(ref, op):
         return False
     dst = op["dst"]
     if op.get("how") == "group":
+        # destination given as group object: the container builds '<group path>/<source name>'
         dst = dst if dst.startswith("/") else Shadow.join(op["base"], dst)
-        dst = dst.rstrip("/") + "/x"
+        dst = dst.rstrip("/") + "/" + op["src"].rstrip("/").rsplit("/", 1)[-1]
     if not dst.startswith("/"):
         return False
     first = dst.strip("/").split("/")[0]
